@@ -56,6 +56,7 @@ def strategy(max_size):
         cwd=st.sampled_from(["outside", "source", "source-sub", "targets-parent"]),
         history=st.lists(st.lists(mutations(), min_size=1, max_size=3), max_size=3),
         trailing_slash=st.booleans(),
+        reuse=st.booleans(),  # one RSync object for the whole history (add_target + send again) or a fresh one per step
     ))
 
 
@@ -89,22 +90,28 @@ class Sync(Part):
         return strategy(300000 if ctx.tier == "quick" else 16_000_000)
 
     # ----------------------------------------------------------------------------------------------
-    def _sync(self, src, dests, delete, cwd, trailing):
+    def _sync(self, src, dests, delete, cwd, trailing, reuse=None):
         from execnet.rsync import RSync
 
         sent, listed = [], []
 
         class R(RSync):
             def _report_send_file(self, gateway, modified_rel_path):
-                sent.append(modified_rel_path)
+                self.sent_log.append(modified_rel_path)
 
         def cb(cmd, value, channel):
             if cmd == "list":
-                listed.append(value)
+                r.listed_log.append(value)
 
         os.chdir(cwd)
         try:
-            r = R(src + ("/" if trailing else ""), callback=cb, verbose=False)
+            if reuse is not None and reuse.get("r") is not None:
+                r = reuse["r"]
+            else:
+                r = R(src + ("/" if trailing else ""), callback=cb, verbose=False)
+                if reuse is not None:
+                    reuse["r"] = r
+            r.sent_log, r.listed_log = sent, listed
             for gw, d in zip(self.gws, dests):
                 if delete:
                     r.add_target(gw, d, delete=True)
@@ -256,6 +263,7 @@ class Sync(Part):
                    "targets-parent": os.path.join(base, "targets")}[case["cwd"]]
             labels.append("cwd:" + case["cwd"])
             other_kind = False
+            reuse = {"r": None} if case.get("reuse") else None
             steps = [None] + list(case["history"])
             for si, muts in enumerate(steps):
                 if muts is not None:
@@ -265,12 +273,12 @@ class Sync(Part):
                 for b in befores:
                     if any(p in b and b[p][0] != v[0] for p, v in s_now.items()):
                         other_kind = True
-                self._sync(src, dests, case["delete"], cwd, case["trailing_slash"])
+                self._sync(src, dests, case["delete"], cwd, case["trailing_slash"], reuse)
                 for i, (d, b) in enumerate(zip(dests, befores)):
                     self._judge(src, d, b, case["delete"], f"step {si} target {i} (cwd {case['cwd']}, delete={case['delete']})")
             # re-sync of the unchanged tree: nothing is transferred, nothing changes
             snaps = [F.snapshot(d) for d in dests]
-            sent, listed = self._sync(src, dests, case["delete"], cwd, case["trailing_slash"])
+            sent, listed = self._sync(src, dests, case["delete"], cwd, case["trailing_slash"], reuse)
             if sent:
                 raise Violation("sync.resync-transfers", f"re-sync of an unchanged tree transferred {sent[:4]}", site="resync")
             if any(v != 0 for v in listed):
@@ -286,6 +294,7 @@ class Sync(Part):
                 labels.append("prior-entry-of-other-kind")
             labels.append(f"targets:{len(dests)}")
             labels.append("delete" if case["delete"] else "keep")
+            labels.append("rsync-object-reused" if case.get("reuse") else "rsync-object-fresh")
             return dict(labels=sorted(set(labels)), nontrivial=nontrivial,
                         sample={"source": [(s["kind"], s["path"]) for s in specs][:8], "targets": len(dests),
                                 "cwd": case["cwd"], "history": [[m[0] for m in h] for h in case["history"]]})
